@@ -45,6 +45,17 @@ FLOORS = {"system_info_checked": 150, "chip_info_compared": 1200,
           "p2p_table_checked": 100, "unresponsive_chip": 100}
 SHARDS = {"quick": 16, "thorough": 64}
 CLASSES = ["small", "faulty", "cores", "sparse_big", "iobuf", "tiny"]
+RT_NAMES = {0: 'none', 1: 'reset', 2: 'undefined_instruction', 3: 'svc',
+            4: 'prefetch_abort', 5: 'data_abort', 6: 'unhandled_irq',
+            7: 'unhandled_fiq', 8: 'unconfigured_vic', 9: 'abort',
+            10: 'malloc_failure', 11: 'division_by_zero',
+            12: 'event_startup_failure', 13: 'software_error',
+            14: 'iobuf_failure', 15: 'bad_enable', 16: 'null_pointer',
+            17: 'pkt_startup_failure', 18: 'timer_startup_failure',
+            19: 'api_startup_failure', 20: 'incompatible_version'}
+STATE_NAMES = {0: 'dead', 1: 'power_down', 2: 'runtime_exception',
+               3: 'watchdog', 4: 'init', 5: 'wait', 6: 'c_main', 7: 'run',
+               8: 'sync0', 9: 'sync1', 10: 'pause', 11: 'exit', 15: 'idle'}
 STATES = [0, 1, 2, 3, 4, 5, 6, 7, 8, 9, 10, 11, 15]
 
 
@@ -268,6 +279,8 @@ def run(case, ctx):
                                                             want[k]))
         check(all(isinstance(s, consts.AppState) for s in ci.core_states),
               "chip-info-state-type", repr(ci.core_states[:3]))
+        check(all(s.name == STATE_NAMES[int(s)] for s in ci.core_states),
+              "chip-info-state-name", repr(ci.core_states[:6]))
     # helper views of the description: each is an iterator the application
     # may give up early or run twice at the same time
     for name in ("chips", "links", "cores", "dead_chips", "dead_links",
@@ -461,6 +474,15 @@ def run(case, ctx):
             user_vars=[vals["user%d" % i] for i in range(4)])
         for k, v in want.items():
             g = getattr(ps, k)
+            if k in ("rt_code", "cpu_state"):
+                # what the number MEANS is part of the description: the
+                # names SARK gives the codes (sark.h), written out here
+                names = RT_NAMES if k == "rt_code" else STATE_NAMES
+                ctx.hit("code_name_compared")
+                check(getattr(g, "name", None) == names[v],
+                      "processor-status-" + k + "-name",
+                      "chip %r core %d: code %d reported as %r, it means %r" %
+                      (xy, p, v, getattr(g, "name", g), names[v]))
             g = int(g) if k in ("rt_code", "cpu_state") else g
             g = tuple(g) if k == "version" else g
             check(g == v, "processor-status-" + k,
